@@ -31,6 +31,7 @@ var w *lib.Writer
 type script struct {
 	kind, t, e int64
 	ok         bool
+	ek         int64 // how a failing clock fails: 0 own error, 2 context.DeadlineExceeded, 3 ctx.Err(), 4 wrapped DeadlineExceeded
 	ts, off    int64
 }
 
@@ -101,17 +102,54 @@ func (c *sclock) MeasureClockOffset(ctx context.Context) (time.Time, time.Durati
 	c.mu.Lock()
 	*c.done = unscale(time.Since(c.start))
 	c.mu.Unlock()
-	var err error
-	if !c.s.ok {
-		err = errClock
+	return toTime(c.s.ts), time.Duration(c.s.off), scriptErr(ctx, c.s)
+}
+
+// zeroTS stands for the zero time.Time in case files
+const zeroTS = math.MinInt64
+
+func toTime(ts int64) time.Time {
+	if ts == zeroTS {
+		return time.Time{}
 	}
-	return time.Unix(0, c.s.ts), time.Duration(c.s.off), err
+	return time.Unix(0, ts)
+}
+
+func fromTime(t time.Time) int64 {
+	if t.IsZero() {
+		return zeroTS
+	}
+	return t.UnixNano()
+}
+
+func scriptErr(ctx context.Context, s script) error {
+	if s.ok {
+		return nil
+	}
+	switch s.ek {
+	case 2:
+		return context.DeadlineExceeded
+	case 3:
+		if err := ctx.Err(); err != nil { // only scripted for clocks that wait for the cancellation
+			return err
+		}
+	case 4:
+		return fmt.Errorf("scripted clock: %w", context.DeadlineExceeded)
+	}
+	return errClock
+}
+
+func resCode(s script) int64 {
+	if s.ok {
+		return 1
+	}
+	return s.ek
 }
 
 func toMs(in []mrec) []measurements.Measurement {
 	ms := make([]measurements.Measurement, len(in))
 	for i, m := range in {
-		ms[i] = measurements.Measurement{Timestamp: time.Unix(0, m.ts), Offset: time.Duration(m.off)}
+		ms[i] = measurements.Measurement{Timestamp: toTime(m.ts), Offset: time.Duration(m.off)}
 		if m.err {
 			ms[i].Error = errStale
 		}
@@ -122,7 +160,7 @@ func toMs(in []mrec) []measurements.Measurement {
 func fmtMs(ms []measurements.Measurement) string {
 	s := make([]string, len(ms))
 	for i, m := range ms {
-		s[i] = lib.L(lib.I(m.Timestamp.UnixNano()), lib.I(int64(m.Offset)), lib.Bool(m.Error != nil))
+		s[i] = lib.L(lib.I(fromTime(m.Timestamp)), lib.I(int64(m.Offset)), lib.Bool(m.Error != nil))
 	}
 	return lib.L(s...)
 }
